@@ -81,7 +81,7 @@ func runC13(w *World) {
 		return w.Net.DialIn(lisFor(dst), x.h.Site, src, dst)
 	}
 	// ---- put the target peer into a phase ----
-	phases := []string{"idle", "out-pending", "out-opensent", "out-openconfirm", "in-opensent", "in-openconfirm", "established-in", "established-out", "held-down", "deleted"}
+	phases := []string{"idle", "out-pending", "out-opensent", "out-openconfirm", "in-opensent", "in-openconfirm", "established-in", "established-out", "held-down", "deleted", "deleting"}
 	phase := phases[w.Draw(len(phases), "phase")]
 	if p.Spec.Passive && (phase == "out-pending" || phase == "out-opensent" || phase == "out-openconfirm" || phase == "established-out") {
 		phase = "idle"
@@ -131,6 +131,39 @@ func runC13(w *World) {
 		}
 		p.Plug.MarkStopped(w.Seq())
 		p.Added = false
+	}
+	if phase == "deleting" {
+		// DeletePeer races with the arrival of a connection from that peer: whatever
+		// the order, once DeletePeer has returned and things settled the connection
+		// must be closed, and if anything was written on it, it was an OPEN and
+		// then a Cease.
+		del := w.CallAsync("DeletePeer", func() error { return e.Srv.DeletePeer(p.Cfg.RemoteAddress) })
+		c := dialIn(tp, p.Spec.RemoteIP, dstFor(tp))
+		if !w.WaitUntil("c13.del", 10*time.Second, del.Done) {
+			w.Probe("deletepeer-stuck-not-judged-here")
+			return
+		}
+		p.Plug.MarkStopped(del.RetSeq)
+		p.Added = false
+		w.Quiesce()
+		w.NonTrivial = true
+		w.Probe("phase:deleting")
+		w.Rel(fmt.Sprintf("deleting|%v|%s", c.LocalClosed(), descFrames(c.AllFrames())))
+		fs := c.AllFrames()
+		if !c.LocalClosed() {
+			w.Violate("C13/served-after-delete/deleting", "a connection from a peer whose DeletePeer has returned is still open (frames %s)", descFrames(fs))
+			return
+		}
+		// (no Cease is owed when the FSM was stopped between writing its OPEN and
+		// having OpenSent approved; see C10)
+		for i, f := range fs {
+			if (i == 0 && f.Type != MsgOpen) || (f.Type == MsgNotification && !f.IsNotif(6, -1)) || f.Type == MsgUpdate {
+				w.Violate("C13/served-after-delete/deleting", "a connection racing with DeletePeer saw %s (want nothing, or OPEN [KEEPALIVE] [Cease])", descFrames(fs))
+				return
+			}
+		}
+		c.FIN()
+		phase = "deleted"
 	}
 	w.Quiesce()
 	tp.phase = phase
